@@ -41,6 +41,24 @@ def gen(rng, tier, spec):
         sched = [(0, 0)] * 5 + [(1, 0)] * rng.range(21, 26) + [(0, 0)] * rng.range(0, 4)
         sched += R.sched_random(rng, len(progs), rng.range(0, 10), ((14, 0), (2, 1), (2, 2)))
         return {'cfg': [0], 'progs': progs, 'sched': sched}
+    if rng.below(14) == 0:
+        # boundary-aimed: a wait_for / wait_forActivation with a zero or negative duration (a "poll") on a variable
+        # whose event happened long ago, issued exactly while another thread owns the matching mutex (inside
+        # trigger() / wait() / wait_for(), resp. activate() / waitActivation()): the poll must still report the event
+        dur = rng.pick([0, 0, -5])
+        if rng.chance(2, 3):
+            holder = rng.pick([[TRIGGER], [WAIT], [WAITFOR], [WAITFOR, 0]])
+            progs = [[[TRIGGER]], [holder] + _role_prog(rng, 'waiter', rng.range(0, 1)),
+                     [[WAITFOR, dur]] + _role_prog(rng, 'waiter', rng.range(0, 1))]
+            first, hold = 6, 3
+        else:
+            holder = rng.pick([[WAITACT], [WAITFORACT], [WAITFORACT, 0], [RESET]])
+            progs = [[[ISACTIVE]], [holder] + _role_prog(rng, 'actwaiter', rng.range(0, 1)),
+                     [[WAITFORACT, dur]] + _role_prog(rng, 'actwaiter', rng.range(0, 1))]
+            first, hold = 2, 2
+        sched = [(0, 0)] * first + [(1, 0)] * (hold + rng.range(0, 1)) + [(2, 0)] * rng.range(2, 5)
+        sched += R.sched_random(rng, 3, rng.range(0, 20), ((14, 0), (2, 1), (2, 2)))
+        return {'cfg': [1], 'progs': progs, 'sched': sched}
     if rng.below(12) == 0:
         # boundary-aimed: the time-out (choice 2) of a sleeping timed waiter fires exactly while the setter owns the
         # matching mutex, between its lock and its flag store / between the store and the notify; the waiter then
@@ -108,6 +126,11 @@ def gen(rng, tier, spec):
             sched = sched[:rng.range(1, 10)] + [(second, 0)] * k1 + sched[10:]
     else:
         sched = R.any_sched(rng, nt, 70, cw)
+    # now and then a timed wait gets an explicit duration, including the degenerate ones (zero, negative)
+    for pr in progs:
+        for o in pr:
+            if o[0] in (WAITFOR, WAITFORACT) and len(o) == 1 and rng.below(4) == 0:
+                o.append(rng.pick([0, 0, -5, 10]))
     return {'cfg': [active], 'progs': progs, 'sched': sched}
 
 
@@ -421,7 +444,29 @@ def mon_notify_outside_lock(case, lines):
     return None
 
 
+def mon_refused_activate_effect(case, lines):
+    """an activate() that returns false (the variable was already active) has no effect: in particular it does not
+    store to `triggered`, so it cannot wipe the trigger of the running cycle (TriggerProofs.refused_activate_noop:
+    the refused call is one load and changes nothing)"""
+    seen = {}
+    for i, t, k, o, v, m, op, ins in _events(lines):
+        if op != ACTIVATE:
+            continue
+        if k == K['INVOKE']:
+            seen[t] = []
+        elif k == K['RET']:
+            bad = [e for e in seen.get(t, []) if e[1] in (K['STORE'], K['NOTIFY_ALL'], K['NOTIFY_ONE'], K['RMW'], K['XCHG'], K['CAS_OK'])]
+            if v == 0 and bad:
+                return ('thread %d: activate() returned false at trace line %d (already active) but wrote shared state at line %d '
+                        '(kind %d, value %d): a refused activate() must not clear the trigger of the running cycle'
+                        % (t, i, bad[0][0], bad[0][1], bad[0][2]))
+        else:
+            seen.setdefault(t, []).append((i, k, v))
+    return None
+
+
 MONITORS = {'wait_early': mon_wait_early, 'timed_false': mon_timed_false, 'activation_early': mon_activation_early,
             'trigger_reset': mon_trigger_reset, 'lost_wakeup': mon_lost_wakeup,
             'activate_lost_to_reset': mon_activate_lost_to_reset,
-            'mo_weakened': mon_mo_weakened, 'notify_outside_lock': mon_notify_outside_lock}
+            'mo_weakened': mon_mo_weakened, 'notify_outside_lock': mon_notify_outside_lock,
+            'refused_activate_effect': mon_refused_activate_effect}
